@@ -18,6 +18,7 @@ import Optyx.Lemmas.GlueInputs
 import Optyx.Props.C01
 import Optyx.Props.C03
 import Optyx.Props.C09
+import Optyx.Props.Dispatch
 import Optyx.Props.C17
 
 namespace Optyx.Props.C09b
